@@ -55,6 +55,10 @@ pub trait EchoService {
     #[endpoint(method = POST, path = "/e/unit")]
     fn unit(&self, #[auth(cookie_name = "SESS")] token: BearerToken, #[query(name = "s")] s: String) -> Result<(), Error>;
 
+    /// query names with reserved characters: client and server must agree on the key
+    #[endpoint(method = GET, path = "/e/weird", produces = StdResponseSerializer)]
+    fn weird(&self, #[query(name = "filter[name]")] f: String, #[query(name = "page token", decoder = FromStrOptionDecoder)] p: Option<String>, #[query(name = "tag+", decoder = FromStrSeqDecoder<String>)] tags: Vec<String>, #[query(name = "a=b&c")] x: String, #[query(name = "caf\u{e9}%41")] y: String) -> Result<String, Error>;
+
     #[endpoint(method = POST, path = "/e/renamed/{theId}/mid/{rest}", name = "renamedEndpoint", produces = StdResponseSerializer)]
     fn renamed(&self, #[path(name = "theId", log_as = "theId")] id: String, #[path(name = "rest")] tail: String, #[header(name = "X-Seen")] seen: String, #[body(deserializer = StdRequestDeserializer<64>)] body: String, #[context] ctx: RequestContext<'_>) -> Result<String, Error>;
 }
@@ -78,6 +82,9 @@ pub trait AsyncEchoService {
     #[endpoint(method = POST, path = "/e/unit")]
     async fn unit(&self, #[auth(cookie_name = "SESS")] token: BearerToken, #[query(name = "s")] s: String) -> Result<(), Error>;
 
+    #[endpoint(method = GET, path = "/e/weird", produces = StdResponseSerializer)]
+    async fn weird(&self, #[query(name = "filter[name]")] f: String, #[query(name = "page token", decoder = FromStrOptionDecoder)] p: Option<String>, #[query(name = "tag+", decoder = FromStrSeqDecoder<String>)] tags: Vec<String>, #[query(name = "a=b&c")] x: String, #[query(name = "caf\u{e9}%41")] y: String) -> Result<String, Error>;
+
     #[endpoint(method = POST, path = "/e/renamed/{theId}/mid/{rest}", name = "renamedEndpoint", produces = StdResponseSerializer)]
     async fn renamed(&self, #[path(name = "theId", log_as = "theId")] id: String, #[path(name = "rest")] tail: String, #[header(name = "X-Seen")] seen: String, #[body(deserializer = StdRequestDeserializer<64>)] body: String, #[context] ctx: RequestContext<'_>) -> Result<String, Error>;
 }
@@ -93,6 +100,9 @@ impl EchoService for EchoHandler {
     fn unit(&self, token: BearerToken, s: String) -> Result<(), Error> {
         self.hit("unit", vec![d(&token.as_str()), d(&s)]);
         Ok(())
+    }
+    fn weird(&self, f: String, p: Option<String>, tags: Vec<String>, x: String, y: String) -> Result<String, Error> {
+        Ok(self.hit("weird", vec![d(&f), d(&p), d(&tags), d(&x), d(&y)]))
     }
 
     fn renamed(&self, id: String, tail: String, seen: String, body: String, ctx: RequestContext<'_>) -> Result<String, Error> {
@@ -112,6 +122,9 @@ impl AsyncEchoService for EchoHandler {
     async fn unit(&self, token: BearerToken, s: String) -> Result<(), Error> {
         self.hit("unit", vec![d(&token.as_str()), d(&s)]);
         Ok(())
+    }
+    async fn weird(&self, f: String, p: Option<String>, tags: Vec<String>, x: String, y: String) -> Result<String, Error> {
+        Ok(self.hit("weird", vec![d(&f), d(&p), d(&tags), d(&x), d(&y)]))
     }
 
     async fn renamed(&self, id: String, tail: String, seen: String, body: String, ctx: RequestContext<'_>) -> Result<String, Error> {
@@ -139,6 +152,9 @@ pub trait EchoApi {
     #[endpoint(method = POST, path = "/e/unit")]
     fn unit(&self, #[auth(cookie_name = "SESS")] token: &BearerToken, #[query(name = "s")] s: &str) -> Result<(), Error>;
 
+    #[endpoint(method = GET, path = "/e/weird", accept = ConjureResponseDeserializer)]
+    fn weird(&self, #[query(name = "filter[name]")] f: &str, #[query(name = "page token", encoder = DisplaySeqEncoder)] p: Option<&str>, #[query(name = "tag+", encoder = DisplaySeqEncoder)] tags: &[String], #[query(name = "a=b&c")] x: &str, #[query(name = "caf\u{e9}%41")] y: &str) -> Result<String, Error>;
+
     #[endpoint(method = POST, path = "/e/renamed/{theId}/mid/{rest}", name = "renamedEndpoint", accept = ConjureResponseDeserializer)]
     fn renamed(&self, #[path(name = "theId")] id: &str, #[path(name = "rest")] tail: &str, #[header(name = "X-Seen")] seen: &str, #[body(serializer = ConjureRequestSerializer)] body: &str) -> Result<String, Error>;
 }
@@ -161,6 +177,9 @@ pub trait AsyncEchoApi {
 
     #[endpoint(method = POST, path = "/e/unit")]
     async fn unit(&self, #[auth(cookie_name = "SESS")] token: &BearerToken, #[query(name = "s")] s: &str) -> Result<(), Error>;
+
+    #[endpoint(method = GET, path = "/e/weird", accept = ConjureResponseDeserializer)]
+    async fn weird(&self, #[query(name = "filter[name]")] f: &str, #[query(name = "page token", encoder = DisplaySeqEncoder)] p: Option<&str>, #[query(name = "tag+", encoder = DisplaySeqEncoder)] tags: &[String], #[query(name = "a=b&c")] x: &str, #[query(name = "caf\u{e9}%41")] y: &str) -> Result<String, Error>;
 
     #[endpoint(method = POST, path = "/e/renamed/{theId}/mid/{rest}", name = "renamedEndpoint", accept = ConjureResponseDeserializer)]
     async fn renamed(&self, #[path(name = "theId")] id: &str, #[path(name = "rest")] tail: &str, #[header(name = "X-Seen")] seen: &str, #[body(serializer = ConjureRequestSerializer)] body: &str) -> Result<String, Error>;
@@ -216,7 +235,8 @@ fn judge(r: &mut Report, rig: &Rig, endpoint: &'static str, position: &str, clas
         let calls = rig.handler.take();
         let uri = if flavour == "blocking" { rig.blocking.last.lock().unwrap().uri.clone() } else { rig.asyncl.last.lock().unwrap().uri.clone() };
         let case = json!({"macro_endpoint": endpoint, "position": position, "flavour": flavour, "args": want_args, "uri": uri});
-        let sig = |k: &str| format!("C04|macro|{}|{}|{}|{}|{}", endpoint, position, flavour, k, class);
+        let prop = PROP.with(|p| *p.borrow());
+        let sig = |k: &str| format!("{}|macro|{}|{}|{}|{}|{}", prop, endpoint, position, flavour, k, class);
         match got {
             Err(p) => r.violation(sig("panic"), format!("macro client {} ({}) panicked with args {:?}: {}", endpoint, flavour, want_args, p), case),
             Ok(Err(e)) => {
@@ -240,6 +260,43 @@ fn judge(r: &mut Report, rig: &Rig, endpoint: &'static str, position: &str, clas
                 } else {
                     r.outcome("macro:delivered-exactly");
                 }
+            }
+        }
+    }
+}
+
+thread_local! {
+    /// the property a run reports under (the reserved-name endpoint also serves C07)
+    static PROP: std::cell::RefCell<&'static str> = std::cell::RefCell::new("C04");
+}
+
+/// the macro client / macro server pair whose query names hold reserved characters, as a part
+/// of C07: every value in every position must decode back exactly on the server
+pub fn run_weird_for_c07(args: &Args, report: &mut Report) {
+    PROP.with(|p| *p.borrow_mut() = "C07");
+    let thorough = args.tier.is_thorough();
+    let rigs = [Rig::new(Options::default)];
+    let mut all: Vec<String> = ascii_strings();
+    all.extend(boundary_strings());
+    all.extend(pair_strings(if thorough { "%+/?#&= .~:;@!$'()*,[]\\\"<>{}|^`" } else { "%+/?#&= " }));
+    let reduced: Vec<String> = vec![];
+    weird_cases(report, &rigs, &all, &reduced);
+    PROP.with(|p| *p.borrow_mut() = "C04");
+}
+
+fn weird_cases(report: &mut Report, rigs: &[Rig], all: &[String], reduced: &[String]) {
+    for (ri, rig) in rigs.iter().enumerate() {
+        for v in if ri == 0 { all } else { reduced } {
+            for pos in 0..5usize {
+                let mut vals: Vec<String> = vec!["f".into(), "p".into(), "t".into(), "x".into(), "y".into()];
+                vals[pos] = v.clone();
+                let p = if pos == 1 || ri == 0 { Some(vals[1].as_str()) } else { None };
+                let tags: Vec<String> = if pos == 2 { vec![vals[2].clone(), "mid".into(), vals[2].clone()] } else { vec![] };
+                let want_args = vec![d(&vals[0]), d(&p.map(|s| s.to_string())), d(&tags), d(&vals[3]), d(&vals[4])];
+                *rig.handler.ret.lock().unwrap() = "w".into();
+                judge(report, rig, "weird", &format!("pos{}/rig{}", pos, ri), &class_of(&[v.as_str()]), want_args, d(&"w".to_string()), false,
+                    &|rig| EchoApiClient::new(&rig.blocking).weird(&vals[0], p, &tags, &vals[3], &vals[4]).map(|v| d(&v)),
+                    &|rig| block_on(AsyncEchoApiClient::new(&rig.asyncl).weird(&vals[0], p, &tags, &vals[3], &vals[4])).map(|v| d(&v)));
             }
         }
     }
@@ -302,6 +359,8 @@ pub fn run(args: &Args, report: &mut Report) {
             }
         }
     }
+    // ---- weird: query names holding reserved characters, every value in every position
+    weird_cases(report, &rigs, &all, &reduced);
     // ---- ints: scalar alphabets, set sizes, flag states, bodies, tokens
     let tokens = ["a", "AbC-._~+/9==", "0"];
     let ns = [0i64, -1, i64::MIN, i64::MAX, 42];
